@@ -222,9 +222,11 @@ def rule_zone_codes(chk):
     ioe = M.find_class(t, 'IOEvaluate')
     loop = M.find_func(ioe, 'loop')
     disp = [a for a in ast.walk(loop) if isinstance(a, ast.Assign) and compact(a.targets[0]) == 'd_disp[d_idx]']
-    ok = bool(disp) and same(disp[0].value, 'delx*self.xn+dely*self.yn+delz*self.zn')
-    dl = dict((compact(a.targets[0]), compact(a.value)) for a in ast.walk(loop) if isinstance(a, ast.Assign))
-    ok = ok and dl.get('delx') == 'd_x[d_idx]-self.x' and dl.get('dely') == 'd_y[d_idx]-self.y' and dl.get('delz') == 'd_z[d_idx]-self.z'
+    ldz = local_defs(loop.body)
+    DIST = '(d_x[d_idx]-self.x)*self.xn+(d_y[d_idx]-self.y)*self.yn+(d_z[d_idx]-self.z)*self.zn'
+    ok = bool(disp) and same(inline(disp[0].value, ldz), DIST)
+    # names that hold the signed distance (the stored value may be kept in a local and tested through it)
+    dist_names = set(k_ for k_, v_ in ldz.items() if same(inline(v_, ldz), DIST))
     chk.decide(ok, 'zone-codes', 'signed-distance', node=loop, file=IOM, func='IOEvaluate.loop',
                detail_bad='the signed distance is not (x - x0).n with each coordinate paired with its own normal component', detail_ok='disp = (x-x0)*xn + (y-y0)*yn + (z-z0)*zn')
     # the zone code as a function of the signed distance: the if-tree is evaluated exactly (rationals) on the common refinement of its own thresholds and the
@@ -239,6 +241,11 @@ def rule_zone_codes(chk):
                 return ast.Name(id='X', ctx=ast.Load())
             return self.generic_visit(n)
 
+        def visit_Name(self, n):
+            if n.id in dist_names:
+                return ast.Name(id='X', ctx=ast.Load())
+            return n
+
         def visit_Attribute(self, n):
             if compact(n) == 'self.maxdist':
                 return ast.Name(id='D', ctx=ast.Load())
@@ -250,7 +257,7 @@ def rule_zone_codes(chk):
             return n
 
     def tr(e):
-        e2 = Sub().visit(inline(e, dict((k, v) for k, v in defs.items() if k not in ('delx', 'dely', 'delz'))))
+        e2 = Sub().visit(inline(e, dict((k, v) for k, v in defs.items() if k not in dist_names)))
         return compile(ast.fix_missing_locations(ast.Expression(body=e2)), '<zone>', 'eval')
 
     class Undecidable(Exception):
@@ -318,13 +325,14 @@ def rule_zone_codes(chk):
         chk.decide(ok, 'zone-codes', 'assignment', node=loop, file=IOM, func='IOEvaluate.loop',
                detail_bad='zone ids are not 1 for 0 < disp <= maxdist, 2 for disp > maxdist and 0 otherwise: ' + why, detail_ok='1 inside, 2 beyond maxdist, 0 on the fluid side (exact evaluation on the refinement of all thresholds)')
     # how the two base classes evaluate the zone / the fluid
-    for cname, zone in (('InletBase', 'i_name'), ('OutletBase', 'o_name')):
+    for cname, zone, fluid_ in (('InletBase', 'self.inlet_pa.name', 'self.dest_pa.name'), ('OutletBase', 'self.outlet_pa.name', 'self.source_pa.name')):
         c = M.find_class(t, cname)
         f = M.find_func(c, '_create_io_eval')
         ev = [x for x in M.calls(f) if M.call_name(x) == 'IOEvaluate']
         for x in ev:
-            who = compact(x.args[0]) if x.args else '?'
-            kw = dict((k.arg, compact(k.value)) for k in x.keywords)
+            ldf0 = local_defs(f.body)
+            who = compact(inline(x.args[0], ldf0)) if x.args else '?'
+            kw = dict((k.arg, compact(inline(k.value, ldf0))) for k in x.keywords)
             geo = all(kw.get(k) == 'self.' + k for k in ('x', 'y', 'z', 'xn', 'yn', 'zn'))
             if who == zone:
                 ok = geo and kw.get('maxdist') == 'self.length'
@@ -332,17 +340,31 @@ def rule_zone_codes(chk):
                            detail_bad='the %s zone is evaluated with %s (needs the interface point, its normal and maxdist=self.length for code 2 to mean "beyond the zone")' % (
                                cname[:-4].lower(), kw), detail_ok='maxdist=self.length')
             else:
-                ok = geo and 'maxdist' not in kw and who == 'f_name'
+                ok = geo and 'maxdist' not in kw and who == fluid_
                 chk.decide(ok, 'zone-codes', '%s:fluid-evaluated-without-length' % cname, node=x, file=IOM, func=cname + '._create_io_eval',
                            detail_bad='the fluid is evaluated with %s' % kw, detail_ok='interface point and normal, default maxdist')
         grp = [x for x in M.calls(f) if M.call_name(x) == 'Group']
         ok = len(grp) == 2 and all(any(k.arg == 'real' and compact(k.value) == 'False' for k in x.keywords) for x in grp)
         chk.decide(ok, 'zone-codes', '%s:all-particles-evaluated' % cname, node=f, file=IOM, func=cname + '._create_io_eval',
                    detail_bad='zone ids are not evaluated for all particles (real=False)', detail_ok='real=False for both arrays')
-        arrs = [a for a in ast.walk(f) if isinstance(a, ast.Assign) and compact(a.targets[0]) == 'arrays']
-        want = '[self.inlet_pa]+[self.dest_pa]' if cname == 'InletBase' else '[self.outlet_pa]+[self.source_pa]'
-        chk.decide(bool(arrs) and compact(arrs[0].value) == want, 'zone-codes', '%s:arrays' % cname, node=f, file=IOM, func=cname + '._create_io_eval',
-                   detail_bad='evaluator built over %s' % (compact(arrs[0].value) if arrs else None), detail_ok=want)
+        # the arrays handed to the evaluator (keyword `arrays` of the SPHEvaluator call, locals substituted): the zone array and the fluid, as a list in any spelling
+        evc = [x for x in M.calls(f) if (M.call_name(x) or '').endswith('SPHEvaluator')]
+        av = [k.value for x in evc for k in x.keywords if k.arg == 'arrays']
+        ldf = local_defs(f.body)
+        flat = None
+        if len(av) == 1:
+            def flatten(e):
+                e = inline(e, ldf) if isinstance(e, ast.Name) else e
+                if isinstance(e, ast.BinOp) and isinstance(e.op, ast.Add):
+                    l_, r_ = flatten(e.left), flatten(e.right)
+                    return None if l_ is None or r_ is None else l_ + r_
+                if isinstance(e, (ast.List, ast.Tuple)):
+                    return [compact(inline(x, ldf)) for x in e.elts]
+                return None
+            flat = flatten(av[0])
+        want = ['self.inlet_pa', 'self.dest_pa'] if cname == 'InletBase' else ['self.outlet_pa', 'self.source_pa']
+        chk.decide(flat == want, 'zone-codes', '%s:arrays' % cname, node=f, file=IOM, func=cname + '._create_io_eval',
+                   detail_bad='evaluator built over %s' % flat, detail_ok=str(want))
         init = M.find_func(c, 'initialize')
         info = 'inletinfo' if cname == 'InletBase' else 'outletinfo'
         dd = dict((compact(a.targets[0]), compact(a.value)) for a in ast.walk(init) if isinstance(a, ast.Assign))
@@ -581,6 +603,76 @@ def rule_activation(chk):
         chk.undecided('updaters-activated', 'info-defaults', file=IOM, func='InletInfo.__init__', line=0, detail='constructor not interpretable: %s' % e)
 
 
+def rule_manager_model(chk):
+    """InletOutletManager interpreted (E8) on a model set-up with two inlets and two outlets, one of each with a ghost array: every zone's updater is built over that zone's
+    own arrays - its array, the fluid, its info object, ITS ghost array or none - after the zone's length was evaluated from its current particles; and
+    _update_inlet_outlet_info re-evaluates the length from the particles on every call (a second set-up with other arrays is not given the first one's length)"""
+    from verif_static import emit as EM, absint as AI
+    t = M.py(IOM)
+    cls = M.find_class(t, 'InletOutletManager')
+    fn = M.find_func(cls, 'get_inlet_outlet')
+    fn2 = M.find_func(cls, '_update_inlet_outlet_info')
+    made, order = [], []
+
+    def updater(tag):
+        def mk(i, a, k, n, e):
+            made.append((tag, list(a), dict(k)))
+            order.append(('make', tag))
+            return ('updater', tag)
+        return mk
+
+    def info(name, tag, normal=(1.0, 0.0, 0.0)):
+        return EM.mock(pa_name=name, update_cls=updater(tag), dx=0.5, length=0.0, normal=list(normal), name=tag)
+
+    def coords(lo, hi):
+        return [lo, (lo + hi) / 2.0, hi]
+
+    def arrays(scale):
+        d = {}
+        for nm_, (lo, hi) in (('inA', (0.0, 2.0)), ('inB', (5.0, 6.0)), ('outC', (10.0, 13.0)), ('outD', (20.0, 20.5)), ('fluid', (0.0, 30.0)), ('gA', (0.0, 1.0)), ('gC', (0.0, 1.0))):
+            d[nm_] = EM.mock(name=nm_, x=coords(lo * scale, hi * scale), y=[0.0, 0.0, 0.0], z=[0.0, 0.0, 0.0])
+        return d
+    bad, und = None, None
+    try:
+        for first_with_ghost in (True, False):
+            it = EM.interpreter()
+            ins = [info('inA', 'A'), info('inB', 'B')]
+            outs = [info('outC', 'C'), info('outD', 'D')]
+            if not first_with_ghost:
+                ins.reverse()
+                outs.reverse()
+            mgr = EM.instance(it, IOM, 'InletOutletManager', inletinfo=ins, outletinfo=outs, fluids=['fluid'], inlet_pairs={'inA': 'gA'}, outlet_pairs={'outC': 'gC'}, kernel='K', dim=2,
+                              active_stages=[1])
+            for scale in (1.0, 3.0):           # the same manager and info objects used for a second set-up of another size
+                del made[:]
+                pas = arrays(scale)
+                res = EM.call(it, mgr, 'get_inlet_outlet', pas)
+                want_len = dict((i_.attrs['name'], (max(pas[i_.attrs['pa_name']].attrs['x']) - min(pas[i_.attrs['pa_name']].attrs['x']) + 0.5)) for i_ in ins + outs)
+                for tag, a, k in made:
+                    nm_ = {'A': 'inA', 'B': 'inB', 'C': 'outC', 'D': 'outD'}[tag]
+                    gh = {'A': 'gA', 'C': 'gC'}.get(tag)
+                    inf = [i_ for i_ in ins + outs if i_.attrs['name'] == tag][0]
+                    ok = len(a) >= 3 and a[0] is pas[nm_] and a[1] is pas['fluid'] and a[2] is inf and (k.get('ghost_pa') is (pas[gh] if gh else None))
+                    if not ok and bad is None:
+                        bad = 'zone %s (array %s, ghost %s) gets an updater over %s with ghost_pa=%s' % (tag, nm_, gh, [x.attrs.get('name') if hasattr(x, 'attrs') else x for x in a[:2]],
+                                                                                                    k.get('ghost_pa').attrs.get('name') if hasattr(k.get('ghost_pa'), 'attrs') else k.get('ghost_pa'))
+                    got_len = inf.attrs.get('length')
+                    if bad is None and not (isinstance(got_len, float) and abs(got_len - want_len[tag]) < 1e-12):
+                        bad = 'zone %s spans %s (spacing 0.5): its length should be %s when its updater is made, it is %s (set-up scaled by %s)' % (tag, pas[nm_].attrs['x'], want_len[tag], got_len, scale)
+                if sorted(m_[0] for m_ in made) != ['A', 'B', 'C', 'D'] and bad is None:
+                    bad = 'updaters made for %s, expected one per zone' % sorted(m_[0] for m_ in made)
+                if bad is None and (not isinstance(res, list) or len(res) != 4):
+                    bad = 'get_inlet_outlet returns %s' % (res,)
+    except (AI.Unsupported, AI.Raised) as ex:
+        und = str(ex)
+    if und:
+        chk.undecided('families-route-through-bases', 'manager:model-run', node=fn, file=IOM, func='InletOutletManager.get_inlet_outlet', detail='not interpretable on the model: ' + und)
+    else:
+        chk.decide(bad is None, 'families-route-through-bases', 'manager:model-run', node=fn, file=IOM, func='InletOutletManager.get_inlet_outlet',
+                   detail_bad='on a model with inlets A (ghost gA), B and outlets C (ghost gC), D: %s' % bad,
+                   detail_ok='two zone orders x two set-ups through one manager: every zone gets its own arrays, its own ghost array or none, and a length evaluated from its particles')
+
+
 def main(chk):
     chk.explanation = ('For every update() of the inlet/outlet classes (the two bases and every override in the five families): zone ids are '
                        'refreshed before they are read (dominance); inlet: the set with ioid == 0 is copied inlet -> fluid exactly once and that '
@@ -603,6 +695,7 @@ def main(chk):
         chk.decide(bool(acting) and not gi, 'zone-ids-fresh', 'bc:%s.update:active-stages' % cls.name, node=up, file=IOM, func=cls.name + '.update',
                    detail_bad='update is not restricted to the active stages', detail_ok='if stage in self.active_stages')
     rule_zone_codes(chk)
+    rule_manager_model(chk)
     rule_families(chk, ci)
     rule_alignment(chk)
     rule_zone_length(chk)
